@@ -11,6 +11,7 @@ CONSTANTS
   EraseKeepsBug = FALSE
   PushFrontRetBug = TRUE
   ReleaseNoClear = FALSE
+  MoveAssignInPlaceBug = FALSE
 VIEW IView
 INVARIANTS ParentConsistent RootsHaveNoParent NoDangling NoLeak Refines ReturnsAgree ITypeOK TypeOK
 CHECK_DEADLOCK FALSE
